@@ -19,7 +19,7 @@ RULE = ("nodes_connected, get_coord_neighbors, coord_degrees, gen_connected_comp
         "structures up to 15x15 incl. oblong. non-trivial & distinct = distinct connection structures with >= 1 edge")
 ASSUMPTIONS = ["from_adj_list only on square mazes whose highest row and column index occur in a connection (documented precondition)"]
 NSHARDS = {"quick": 16, "thorough": 16}
-THRESHOLDS = {"quick": {"c13:objects-built-another-way": 400, "c13:reloaded-mazes": 40, "c13:same-object-after-edit:in-place": 100, "c13:same-object-after-edit:re-bound": 100, 
+THRESHOLDS = {"quick": {"c13:generator-made-mazes": 300, "c13:answers-overwritten-by-caller": 3000, "c13:objects-built-another-way": 400, "c13:reloaded-mazes": 40, "c13:same-object-after-edit:in-place": 100, "c13:same-object-after-edit:re-bound": 100, 
     "c13:nodes_connected": 1000, "c13:neighbors": 1000, "c13:degrees": 1000, "c13:component": 1000, "c13:valid-path": 1000,
     "c13:invalid-path:broken": 300, "c13:invalid-path:oob-neg": 300, "c13:invalid-path:oob-big": 300, "c13:empty-path": 1000, "c13:one-cell-path": 3000, "c13:forks-on-walks": 300, "c13:is_connection-large-grid": 12,
     "c13:adj-list": 1000, "c13:is_connection": 1000, "c13:from_adj_list": 300, "c13:oblong": 100, "c13:forks": 500,
@@ -66,6 +66,21 @@ def _any(c):
     return (np.array(c), tuple(c), list(c), np.array(c, dtype=np.int8), tuple(np.int64(x) for x in c))[k]
 
 
+def _scribble(x):
+    """what a query handed back belongs to the caller: overwrite it in place (scaled to pixel centres, blanked)"""
+    try:
+        if isinstance(x, np.ndarray) and x.flags.writeable and x.size:
+            if x.dtype.kind in "iu":
+                x *= 2
+                x += 1
+            elif x.dtype.kind == "b":
+                x[...] = ~x
+            return True
+    except Exception:  # noqa: BLE001
+        pass
+    return False
+
+
 def check_structure(ctx, cl, case, full: bool, rng, maze=None):
     from maze_dataset.token_utils import connection_list_to_adj_list, is_connection
 
@@ -81,6 +96,10 @@ def check_structure(ctx, cl, case, full: bool, rng, maze=None):
         nodes = _tl(maze.get_nodes())
         ctx.ev(); ctx.tally("c13:get_nodes")
         ctx.check(sorted(nodes) == sorted(cells) and len(nodes) == len(cells), "C13/get_nodes-wrong", f"{nodes}", case)
+        if _scribble(maze.get_nodes()):
+            ctx.tally("c13:answers-overwritten-by-caller")
+            again = _tl(maze.get_nodes())
+            ctx.check(sorted(again) == sorted(cells), "C13/get_nodes-wrong", f"asked again after the caller overwrote the first answer in place: {again[:6]}", case)
     # degrees
     with ctx.guard("C13/coord_degrees", case):
         deg = maze.coord_degrees()
@@ -88,6 +107,7 @@ def check_structure(ctx, cl, case, full: bool, rng, maze=None):
         exp = np.array([[g.degree((r, c)) for c in range(C)] for r in range(R)])
         ctx.check(deg.shape == exp.shape and np.array_equal(deg, exp), "C13/coord_degrees-wrong",
                   lambda: f"got {np.asarray(deg).tolist()} expected {exp.tolist()}", case)
+        _scribble(deg)
     # neighbours + component per cell
     cell_iter = cells if full else [cells[int(i)] for i in rng.choice(len(cells), size=min(len(cells), 12), replace=False)]
     for c in cell_iter:
@@ -97,6 +117,7 @@ def check_structure(ctx, cl, case, full: bool, rng, maze=None):
             got = _tl(nb)
             ctx.check(sorted(got) == sorted(g.adj[c]) and len(got) == len(set(got)), "C13/neighbors-wrong",
                       lambda: f"cell {c}: got {got} expected {sorted(g.adj[c])}", dict(case, cell=c))
+            _scribble(nb)
     comp_cells = cell_iter if full else cell_iter[:3]
     for c in comp_cells:
         with ctx.guard("C13/gen_connected_component_from", case):
@@ -105,6 +126,7 @@ def check_structure(ctx, cl, case, full: bool, rng, maze=None):
             got = _tl(cc)
             ctx.check(set(got) == g.component_of(c) and len(got) == len(set(got)), "C13/component-wrong",
                       lambda: f"from {c}: got {sorted(got)} expected {sorted(g.component_of(c))}", dict(case, cell=c))
+            _scribble(cc)
     # nodes_connected on ordered pairs
     if full:
         pairs = [(a, b) for a in cells for b in cells]
@@ -258,6 +280,40 @@ def _forks(ctx, cl, g, case, rng):
         ctx.check(list(map(int, idx2)) == exp2, "C13/forking-points-endpoints-wrong", f"got {list(idx2)} expected {exp2}", c2)
 
 
+def _generator_made(ctx, n):
+    """mazes as the generators hand them out (sparse percolation with the start in a corner / on the last row or column, constrained
+    DFS, 1 x n grids): the same agreement of all views, judged on the generator's own object"""
+    from maze_dataset.generation.generators import GENERATORS_MAP
+
+    for j in range(n):
+        if not ctx.mine(j):
+            continue
+        rng = ctx.sub_rng("genmade", j)
+        R, C = (int(rng.integers(1, 9)), int(rng.integers(1, 9))) if j % 3 else (int(rng.integers(2, 8)),) * 2
+        starts = [(R - 1, C - 1), (R - 1, 0), (0, C - 1), (R - 1, int(rng.integers(C))), (int(rng.integers(R)), C - 1), (0, 0), None]
+        sc = starts[j % len(starts)]
+        gen, kw = [("gen_percolation", dict(p=[0.0, 0.05, 0.15, 0.3, 0.6][j % 5])), ("gen_dfs_percolation", dict(p=[0.0, 0.1, 0.4][j % 3])),
+                   ("gen_dfs", dict(accessible_cells=int(rng.integers(0, R * C + 1)))), ("gen_percolation", dict(p=0.1)), ("gen_prim", dict(max_tree_depth=2))][(j // 7) % 5]
+        kw = dict(kw)
+        if sc is not None:
+            kw["start_coord"] = sc if j % 2 else np.array(sc)
+        case = dict(kind="generator-made", gen=gen, kwargs={k: (tuple(int(x) for x in v) if k == "start_coord" else v) for k, v in kw.items()}, shape=(R, C))
+        try:
+            with warnings.catch_warnings():
+                warnings.simplefilter("ignore")
+                np.random.seed(int(rng.integers(1 << 31)))
+                mz = GENERATORS_MAP[gen](np.array([R, C]), **kw)
+        except Exception as e:  # noqa: BLE001
+            ctx.tally(f"c13:generator-refused:{type(e).__name__}(not judged)")
+            continue
+        cl = np.asarray(mz.connection_list)
+        if cl.shape != (2, R, C):
+            ctx.tally("c13:generator-made-other-shape(not judged here)")
+            continue
+        ctx.tally("c13:generator-made-mazes")
+        check_structure(ctx, cl.astype(bool), dict(case, cl=cl.astype(bool)), False, rng, maze=mz)
+
+
 def _reloaded(ctx, n):
     """solved mazes as they come back from a dataset round trip (full and both compact formats): the object's own solution, fed back
     into the object's own queries, must be judged like any other path"""
@@ -399,6 +455,7 @@ def run(ctx):
         if j < 2:
             ctx.sample(case)
     _reloaded(ctx, 24 if ctx.quick else 240)
+    _generator_made(ctx, 400 if ctx.quick else 4000)
     # the batch edge test on large grids with the int8 edge arrays the library itself produces (row + col past 127)
     from maze_dataset.token_utils import is_connection as _isc
     for j, (R, C) in enumerate([(70, 70), (100, 100), (127, 127), (2, 127), (64, 65), (120, 40)]):
